@@ -58,3 +58,61 @@ package types
 
 //@ func Apply(ctx, f, a) (res, err)
 //@   panics never
+
+// ---- structural equality (C14) -------------------------------------------------------
+// EQ is the structural equality of the property statement; EQdef is its one-step
+// definition. Equal_Q is proved equal to EQdef with recursive calls abstracted by EQ.
+//@ spec isSeq(v MalType) bool = is(v, List) || is(v, Vector)
+//@ spec elems(v MalType) []MalType = ite(is(v, List), v.(List).Val, v.(Vector).Val)
+//@ spec abstract EQ(a MalType, b MalType) bool ~ EQdef(a, b)
+//@ spec EQdef(a MalType, b MalType) bool = ite(isSeq(a) && isSeq(b), len(elems(a)) == len(elems(b)) && forall(j, 0, len(elems(a)), EQ(elems(a)[j], elems(b)[j])), sametype(a, b) && ite(is(a, Symbol), a.(Symbol).Val == b.(Symbol).Val, ite(is(a, HashMap), forallkey(k, has(a.(HashMap).Val, k) == has(b.(HashMap).Val, k)) && forallkey(k, implies(has(a.(HashMap).Val, k), EQ(a.(HashMap).Val[k], b.(HashMap).Val[k]))), ite(is(a, Set), forallkey(k, has(a.(Set).Val, k) == has(b.(Set).Val, k)), a == b))))
+
+//@ func Sequential_Q(seq) (r)
+//@   panics never
+//@   pure
+//@   ensures r == isSeq(seq)
+
+//@ func Equal_Q(a, b) (r)
+//@   pure
+//@   ensures r == EQdef(a, b)
+//@   ensures r == EQ(a, b) @assume
+//@   loop 1 invariant forall(j, 0, i, EQ(as[j], bs[j]))
+//@   loop 2 invariant forall(j, 0, i, EQ(as[j], bs[j]))
+//@   loop 3 invariant forallkey(k, implies(visited(k), has(bm, k) && EQ(am[k], bm[k])))
+//@   loop 4 invariant forallkey(k, implies(visited(k), has(bm, k)))
+
+// Spec lemmas (C14): EQdef is reflexive, symmetric and transitive provided EQ is on the
+// immediate components (the induction steps of a structural induction), and values of
+// different kinds are never equal.
+//@ lemma eq_refl(a MalType)
+//@   props C14
+//@   hyp implies(isSeq(a), forall(j, 0, len(elems(a)), EQ(elems(a)[j], elems(a)[j])))
+//@   hyp implies(is(a, HashMap), forallkey(k, implies(has(a.(HashMap).Val, k), EQ(a.(HashMap).Val[k], a.(HashMap).Val[k]))))
+//@   goal EQdef(a, a)
+
+//@ lemma eq_sym(a MalType, b MalType)
+//@   props C14
+//@   hyp implies(isSeq(a) && isSeq(b), forall(j, 0, len(elems(a)), EQ(elems(a)[j], elems(b)[j]) == EQ(elems(b)[j], elems(a)[j])))
+//@   hyp implies(is(a, HashMap) && is(b, HashMap), forallkey(k, EQ(a.(HashMap).Val[k], b.(HashMap).Val[k]) == EQ(b.(HashMap).Val[k], a.(HashMap).Val[k])))
+//@   goal EQdef(a, b) == EQdef(b, a)
+
+//@ lemma eq_trans(a MalType, b MalType, c MalType)
+//@   props C14
+//@   hyp implies(isSeq(a) && isSeq(b) && isSeq(c), forall(j, 0, len(elems(a)), implies(EQ(elems(a)[j], elems(b)[j]) && EQ(elems(b)[j], elems(c)[j]), EQ(elems(a)[j], elems(c)[j]))))
+//@   hyp implies(is(a, HashMap) && is(b, HashMap) && is(c, HashMap), forallkey(k, implies(EQ(a.(HashMap).Val[k], b.(HashMap).Val[k]) && EQ(b.(HashMap).Val[k], c.(HashMap).Val[k]), EQ(a.(HashMap).Val[k], c.(HashMap).Val[k]))))
+//@   goal implies(EQdef(a, b) && EQdef(b, c), EQdef(a, c))
+
+//@ lemma eq_kinds(a MalType, b MalType)
+//@   props C14
+//@   hyp !sametype(a, b) && !(isSeq(a) && isSeq(b))
+//@   goal !EQdef(a, b)
+
+//@ lemma eq_list_vector(a MalType, b MalType)
+//@   props C14
+//@   hyp is(a, List) && is(b, Vector) && len(elems(a)) == len(elems(b))
+//@   hyp forall(j, 0, len(elems(a)), EQ(elems(a)[j], elems(b)[j]))
+//@   goal EQdef(a, b)
+
+//@ lemma eq_keyword_string(s string)
+//@   props C14
+//@   goal !EQdef(val(s), val("ʞ" + s)) && !EQdef(val(s), val(Symbol{Val: s}))
